@@ -981,7 +981,9 @@ def check_cases(run, cases, record=True):
         if res["status"] == 1 or flat_impl(res) != model[k] or (
                 f is not None and f[1] not in known):
             again.append(k)
-    if again and len(again) <= 200:
+    # (only a bounded number: a systematic failure does not need it)
+    again = again[:24]
+    if again:
         redo = run_cases(run.scratch, [cases[k] for k in again], nproc=4)
         for k, r in zip(again, redo):
             if r[1] is not None and r[0]["status"] != 3:
@@ -1033,7 +1035,7 @@ def run(run):
             cases.append(graph_case(4, edges, (
                 run.rng.choice(["hdf5", "hdf5", "http"]),
                 run.rng.choice(["equal", "odd-one", "random"])), run.rng))
-    nrand = 6000 if run.thorough else 420
+    nrand = 6000 if run.thorough else 330
     for _ in range(nrand):
         cases.append(gen_case(run.rng))
     check_cases(run, cases)
@@ -1062,11 +1064,14 @@ def shrink(run, failure):
         return failure
     changed = True
     rounds = 0
-    while changed and rounds < 6:
+    t_end = time.time() + 150      # wall budget of the minimisation
+    while changed and rounds < 6 and time.time() < t_end:
         changed = False
         rounds += 1
         for i, f in enumerate(case["files"]):
             for bi in range(len(f["basins"])):
+                if time.time() > t_end:
+                    break
                 c = json.loads(json.dumps(case))
                 del c["files"][i]["basins"][bi]
                 if still(c):
